@@ -83,6 +83,8 @@ func (cr *cursor) updatePictoSequence() bool {
 		} else if cr.grapheme == ucd.GraphemeBreakZWJ {
 			// close the variable part of the sequence with (ZWJ)
 			cr.pictoSequence = seenPictoZWJ
+		} else if cr.isExtentedPic {
+			// a pictographic rune starts a new sequence
 		} else {
 			// stop the sequence
 			cr.pictoSequence = noPictoSequence
